@@ -66,11 +66,15 @@ def scene(rng, kind):
         return system, desc, False
     bodies = []
     gravity = kind != "free_collision"
-    nb = {"ball_plane": 1, "balls_plane": rng.choice([2, 3]), "free_collision": 2, "alternate": 2, "mixed_mu": 3}[kind]
+    nb = {"ball_plane": 1, "balls_plane": rng.choice([2, 3]), "free_collision": 2, "alternate": 2, "mixed_mu": 3, "inhomogeneous": rng.choice([1, 2])}[kind]
     radii = []
     frictionless = kind == "free_collision"
     e_N = rng.choice([0.0, 0.3, 0.7, 1.0]) if not frictionless else rng.choice([0.0, 0.5, 1.0])
     mu = 0.0 if frictionless else rng.choice([0.0, 0.2, 0.6, 1.0])
+    if kind == "inhomogeneous":
+        # balls with unequal principal inertias at oblique orientations, spinning and sliding obliquely: the two tangential directions of a contact
+        # see different Delassus entries (different prox parameters), the slip is not along a tangent axis
+        e_N, mu = rng.choice([0.0, 0.3]), rng.choice([0.2, 0.5])
     if kind == "alternate":
         # two bouncing balls far apart whose impacts alternate: the set of closed contacts changes to a
         # different set of the same size while nothing is closed in between
@@ -99,7 +103,15 @@ def scene(rng, kind):
             vel = np.array([rng.uniform(-1, 1), rng.uniform(-0.5, 0.5), rng.choice([0.0, -0.3, -1.0])])
             if pos[2] - r == 0.0:
                 vel[2] = 0.0 if rng.random() < 0.7 else abs(vel[2])
-        if rng.random() < 0.6:
+        if kind == "inhomogeneous":
+            from cardillo.math import Exp_SO3, Spurrier
+            pos = np.array([0.5 * i, 0.0, r])
+            vel = np.array([rng.uniform(0.6, 1.5) * rng.choice([1, -1]), rng.uniform(0.4, 1.0) * rng.choice([1, -1]), 0.0])
+            om = np.array([rng.uniform(-6, 6) for _ in range(3)])
+            A0 = Exp_SO3(np.array([rng.uniform(-1, 1) for _ in range(3)]))
+            m_ = 1.0 + i
+            b = RigidBody(m_, 0.4 * m_ * r * r * np.diag([0.55, 1.0, 1.7]), q0=np.concatenate([pos, Spurrier(A0)]), u0=np.concatenate([vel, A0.T @ om]), name=f"b{i}")
+        elif rng.random() < 0.6:
             om = np.array([rng.uniform(-3, 3) for _ in range(3)]) if not frictionless else np.zeros(3)
             b = RigidBody(1.0 + i, 0.4 * (1.0 + i) * r * r * np.eye(3), q0=np.concatenate([pos, [1.0, 0, 0, 0]]), u0=np.concatenate([vel, om]), name=f"b{i}")
         else:
@@ -273,14 +285,14 @@ def run(ctx):
     if r.violated:
         ctx.violation("spec:lemma", "TLC: the prox fixed point is not equivalent to the complementarity statement", {"stdout": r.stdout[-2000:]})
     # part 2: scenes
-    nscenes = 14 if not ctx.thorough else 84
+    nscenes = 16 if not ctx.thorough else 96
     dts = [1e-3, 3e-3, 1e-2, 3e-2]
     allrecs = []
     meta = {}
     nruns = nfail = 0
     samples = []
     for si in range(nscenes):
-        kind = ["ball_plane", "balls_plane", "free_collision", "alternate", "balls_plane", "mixed_mu", "tip"][si % 7]
+        kind = ["ball_plane", "balls_plane", "free_collision", "alternate", "balls_plane", "mixed_mu", "tip", "inhomogeneous"][si % 8]
         state = rng.getstate()
         dt = dts[si % len(dts)]
         nsteps = 50 if kind != "free_collision" else int(min(200, max(30, 0.5 / dt)))
